@@ -2,9 +2,11 @@
 Counter styles: mirror of `weasyprint/css/counters.py`
   `symbol`, `CounterStyle.resolve_counter`, `CounterStyle.render_value`, `CounterStyle.render_marker`
 branch for branch, quirks included (shared mutable `previous_types`, the second `extends` loop of
-`render_value`, `(counter_value - 1) % length` on non-positive values, `symbols[0]` before the length
-test in the numeric system, decimal fallbacks that receive the already `abs()`-ed value, a `range`
-descriptor that is the tuple `('auto',)`, …).
+`render_value`, `(counter_value - 1) % length` on non-positive values, …).  Since 1bdaf16 the decimal
+fallbacks of the four sign-using systems receive `original_value` and the numeric system tests its
+symbol count first; since 5be1d36 the validator stores `range: auto` as the string `'auto'`
+(`RangeDesc.auto`), so `RangeEntry.autoKw` (an element `'auto'` inside a range tuple, on which
+`for min_range, max_range in …` raises ValueError) is no longer produced by any validator.
 
 Python failure points are explicit (`CErr`).  The two unbounded Python constructs (the recursion of
 `render_value` through fallbacks and the `while extends` loops) take explicit fuel; running out of fuel
@@ -80,14 +82,16 @@ def Bound.geInt : Bound → Int → Bool
   | .fin i, v => decide (v ≤ i)
   | .posInf, _ => true
 
-/-- One element of a `range` tuple: a `(min, max)` pair, or the string `'auto'` (what the validator
-produces for `range: auto`, wrapped in a tuple by `comma_separated_list`). -/
+/-- One element of a `range` tuple: a `(min, max)` pair, or anything that is not a pair (`autoKw`: the
+string `'auto'`, which the validator wrapped in a tuple before 5be1d36; no validator produces it any more,
+`C15.validated_range_is_pairs`; `render_value` handed such a tuple still raises ValueError). -/
 inductive RangeEntry where
   | autoKw
   | pair (lo hi : Bound)
   deriving Repr, DecidableEq
 
-/-- The `range` value: the plain string `'auto'` (anonymous styles of `resolve_counter`) or a tuple. -/
+/-- The `range` value: the plain string `'auto'` (`range: auto`, and the anonymous styles of
+`resolve_counter`) or a tuple. -/
 inductive RangeDesc where
   | auto
   | entries (l : List RangeEntry)
@@ -288,13 +292,17 @@ def joinSyms (syms : List Sym) (idx : List Nat) : String :=
 /-- Outcome of step 3. -/
 inductive Step3 where
   | initial (s : String)
-  | decimal (v : Int)        -- `return self.render_value(counter_value, 'decimal')`
+  | decimal (v : Int)        -- `return self.render_value(original_value | counter_value, 'decimal')`
   | fallback (v : Int)       -- `return self.render_value(v, counter['fallback'] or 'decimal', previous_types)`
   | err (e : CErr)
   deriving Repr, DecidableEq
 
-/-- Step 3 for the (possibly `abs()`-ed) value `v`; `isNeg` is `counter_value < 0` of the original. -/
+/-- Step 3 for the (possibly `abs()`-ed) value `v`; `isNeg` is `counter_value < 0` of the original.
+`orig` is `original_value` for the four systems that `abs()` the value (`-counter_value if is_negative else
+counter_value` of the additive fallback is the same number); cyclic and fixed never change `counter_value`
+and pass it on as it is. -/
 def step3 (counter : Desc) (system : String) (fixed : Option Int) (v : Int) (isNeg : Bool) : Step3 :=
+  let orig : Int := if isNeg then -v else v
   if system = "cyclic" then
     match counter.symbols with
     | none => .err .typeError
@@ -316,7 +324,7 @@ def step3 (counter : Desc) (system : String) (fixed : Option Int) (v : Int) (isN
     match counter.symbols with
     | none => .err .typeError
     | some syms =>
-      if syms.length < 1 then .decimal v
+      if syms.length < 1 then .decimal orig
       else
         let index := (v - 1) % (syms.length : Int)
         let rep := (v - 1) / (syms.length : Int) + 1
@@ -325,33 +333,27 @@ def step3 (counter : Desc) (system : String) (fixed : Option Int) (v : Int) (isN
     match counter.symbols with
     | none => .err .typeError
     | some syms =>
-      if syms.length < 2 then .decimal v
+      if syms.length < 2 then .decimal orig
       else .initial (joinSyms syms (alphaDigits syms.length v.toNat))
   else if system = "numeric" then
-    if v = 0 then
-      match counter.symbols with
-      | none => .err .typeError
-      | some [] => .err .indexError
-      | some (s :: _) => .initial s.text
-    else
-      match counter.symbols with
-      | none => .err .typeError
-      | some syms =>
-        if syms.length < 2 then .decimal v
-        else .initial (joinSyms syms (numDigits syms.length v.natAbs))
+    match counter.symbols with
+    | none => .err .typeError
+    | some syms =>
+      if syms.length < 2 then .decimal orig
+      else if v = 0 then .initial (symAt syms 0)
+      else .initial (joinSyms syms (numDigits syms.length v.natAbs))
   else if system = "additive" then
     match counter.additive with
     | none => .err .typeError
     | some tuples =>
-      let back : Int := if isNeg then -v else v
       if v = 0 then
         match additiveZero tuples none with
         | some s => .initial s
-        | none => .fallback back
-      else if tuples.length < 1 then .decimal v
+        | none => .fallback orig
+      else if tuples.length < 1 then .decimal orig
       else match additiveLoop tuples v.toNat [] with
         | some parts => .initial (String.join (parts.map fun p => p.2.text))
-        | none => .fallback back
+        | none => .fallback orig
   else .err .assertion
 
 /-- Does the system use the `negative` descriptor? -/
